@@ -803,7 +803,7 @@ class COOSubjac(SparseSubjac):
                 if 'uncovered_nz' not in self.info:
                     self.info['uncovered_nz'] = []
                     self.info['uncovered_threshold'] = uncovered_threshold
-                    self.info['uncovered_nz'].extend(list(zip(nzs, icol * np.ones_like(nzs))))
+                self.info['uncovered_nz'].extend(list(zip(nzs, icol * np.ones_like(nzs))))
 
 
 class CSRSubjac(SparseSubjac):
@@ -878,6 +878,7 @@ class CSRSubjac(SparseSubjac):
                 if 'uncovered_nz' not in self.info:
                     self.info['uncovered_nz'] = []
                     self.info['uncovered_threshold'] = uncovered_threshold
+                self.info['uncovered_nz'].extend(list(zip(nzs, icol * np.ones_like(nzs))))
 
         self.info['val'].data = csc.tocsr().data
 
@@ -953,7 +954,7 @@ class CSCSubjac(SparseSubjac):
                 if 'uncovered_nz' not in self.info:
                     self.info['uncovered_nz'] = []
                     self.info['uncovered_threshold'] = uncovered_threshold
-                    self.info['uncovered_nz'].extend(list(zip(nzs, icol * np.ones_like(nzs))))
+                self.info['uncovered_nz'].extend(list(zip(nzs, icol * np.ones_like(nzs))))
 
 
 class OMCOOSubjac(COOSubjac):
@@ -1408,6 +1409,7 @@ class DiagonalSubjac(SparseSubjac):
             if nzs.size > 0:
                 if 'uncovered_nz' not in self.info:
                     self.info['uncovered_nz'] = []
+                    self.info['uncovered_threshold'] = uncovered_threshold
                 self.info['uncovered_nz'].extend(list(zip(nzs, icol * np.ones_like(nzs))))
             column[icol] = save
 
